@@ -1,6 +1,7 @@
 (* CorrIncentive.v — how an incentive-family correspondence case (a history on a deployed incentive contract)
    is run on the model, and the observation (full state dump after every operation). *)
-From WW Require Import Prim Corr Incentive.
+From WW Require Import Prim Corr.
+From WW Require Export Incentive.
 
 Definition RICH_N : Z := (2^128 - 1) / 4.
 Definition RICH_C : Z := RICH_N / 8.
@@ -33,21 +34,25 @@ Definition obs_user (st : state) (u : Z) : list Z :=
 Definition obs_rewards (st : state) (u : Z) : list Z :=
   match get_rewards st u with Ok r => 0 :: len r :: flat2 r | _ => [1] end.
 
-Definition obs_state (st : state) : list Z :=
+Definition obs_share (v : ver) (st : state) (u : Z) : list Z :=
+  match rewards_share v st u with Ok (g, w, s) => [0; g; w; s] | _ => [1] end.
+
+Definition obs_state (v : ver) (st : state) : list Z :=
   [s_epoch st]
   ++ flat_map (fun a => map (fun s => s_bal st a s - init_bal a s) ASSETS) OBS_ACCOUNTS
   ++ [s_gw st; s_counter st]
   ++ flat_map (obs_user st) USERS
   ++ [optz (aget (s_epoch st) (s_snap st))]
   ++ (len (s_flows st) :: flat_map obs_flow (s_flows st))
-  ++ flat_map (obs_rewards st) USERS.
+  ++ flat_map (obs_rewards st) USERS
+  ++ flat_map (obs_share v st) USERS.
 
 Fixpoint run_ops (v : ver) (c : cfg) (st : state) (ops : list op) : list Z :=
   match ops with
   | [] => []
   | o :: r => match step v c st o with
-              | Ok st' => 0 :: obs_state st' ++ run_ops v c st' r
-              | _ => 1 :: obs_state st ++ run_ops v c st r
+              | Ok st' => 0 :: obs_state v st' ++ run_ops v c st' r
+              | _ => 1 :: obs_state v st ++ run_ops v c st r
               end
   end.
 
